@@ -88,30 +88,18 @@ template<class T> void prims(vf::Runner& R, int U) {
 
 // ---------- E1: MultiRange histories ----------
 struct MRModel {
-  std::vector<std::pair<int, int>> l;  // stored decomposition: disjoint, non-empty, ascending
-  Bits cells = 0;                      // union of everything added, intersected with restrictions
-  void add(int a, int b) {
+  // the point set only: union of everything added, intersected with every restriction since. The stored decomposition is NOT
+  // dictated (touching ranges may or may not be merged); filterWithin is defined on the decomposition the object held before the call.
+  Bits cells = 0;
+  void add(int a, int b) { cells |= cellsOf(a, b); }
+  void restrict_(int a, int b) { cells &= cellsOf(a, b); }
+  void filter(int a, int b, const std::vector<std::pair<int, int>>& stored) {
     if (a > b) std::swap(a, b);
-    if (a == b) return;
-    Bits rc = cellsOf(a, b); int lo = a, hi = b;
-    std::vector<std::pair<int, int>> keep;
-    for (auto& p : l) { if (cellsOf(p.first, p.second) & rc) { lo = std::min(lo, p.first); hi = std::max(hi, p.second); } else keep.push_back(p); }
-    keep.push_back({lo, hi}); std::sort(keep.begin(), keep.end()); l = keep; cells |= rc;
+    Bits cs = 0; for (auto& p : stored) if (p.first >= a && p.second <= b) cs |= cellsOf(p.first, p.second);
+    cells = cs;
   }
-  void restrict_(int a, int b) {
-    if (a > b) std::swap(a, b);
-    std::vector<std::pair<int, int>> keep;
-    for (auto& p : l) { int lo = std::max(p.first, a), hi = std::min(p.second, b); if (lo < hi) keep.push_back({lo, hi}); }
-    l = keep; cells &= cellsOf(a, b);
-  }
-  void filter(int a, int b) {
-    if (a > b) std::swap(a, b);
-    std::vector<std::pair<int, int>> keep; Bits cs = 0;
-    for (auto& p : l) if (p.first >= a && p.second <= b) { keep.push_back(p); cs |= cellsOf(p.first, p.second); }
-    l = keep; cells = cs;
-  }
-  void clear() { l.clear(); cells = 0; }
-  std::string s() const { std::string r; for (auto& p : l) r += "[" + str(p.first) + "," + str(p.second) + "["; return r; }
+  void clear() { cells = 0; }
+  std::string s() const { return "cells=" + str(cells); }
 };
 
 template<class T, bool PAIR> struct MRSys : vf::SysBase {
@@ -156,7 +144,6 @@ template<class T, bool PAIR> struct MRSys : vf::SysBase {
       un |= cs; prevEnd = p->end(); first = false;
     }
     if (un != mod.cells) c.fail("multirange|union-differs-from-point-set", ctx + " (cells " + str(un) + " vs " + str(mod.cells) + ")");
-    if (ok && dump(m) != mod.s()) c.fail("multirange|decomposition-differs-from-model", ctx);
     if (m.size() != m.ranges_.size() || m.isEmpty() != (m.ranges_.size() == 0)) c.fail("multirange|size/isEmpty", ctx);
     if (m.totalLength() != (size_t)popc(un)) c.fail("multirange|totalLength", ctx + " totalLength=" + str(m.totalLength()));
     std::vector<T> bd = m.getBounds(); std::string ts = "{ ";
@@ -172,7 +159,7 @@ template<class T, bool PAIR> struct MRSys : vf::SysBase {
     Range<T> r((T)a, (T)b);
     if (kind == 0) { X.addRange(r); M.add(a, b); }
     else if (kind == 1) { X.restrictTo(r); M.restrict_(a, b); }
-    else { X.filterWithin(r); M.filter(a, b); }
+    else { std::vector<std::pair<int, int>> st; for (auto* p : X.ranges_) st.push_back({(int)p->begin(), (int)p->end()}); X.filterWithin(r); M.filter(a, b, st); }
   }
   void apply(int op, vf::Case& c) {
     int po = perObj(); std::string on = c.muted ? std::string() : opname(op);
@@ -283,6 +270,6 @@ int main(int argc, char** argv) {
   rset<double>(R, th ? 4 : 3, 3);
   if (th) mr<int>(R, 12, 64);
   R.note("predicates overlap/contains/isContiguous are judged on non-empty operands only; an empty operand is recorded, not judged");
-  R.note("MultiRange: touching ranges need not be merged; filterWithin acts on the stored decomposition");
+  R.note("MultiRange: the stored decomposition is not dictated (touching ranges may or may not be merged); filterWithin is judged against the decomposition held before the call");
   return R.finish();
 }
